@@ -93,6 +93,12 @@ impl gen::VarlinkInterface for GenImpl {
                 b.len()
             };
             bufreader.consume(n);
+            // the peer may ask the upgraded service to end the session from its side: say goodbye, then hang up
+            if self.log.lock().unwrap().up_rx.get(&tok).map(|b| b.ends_with(b"HANGUP\n")).unwrap_or(false) {
+                let _ = _call.writer.write_all(format!("BYE-{}\n", tok).as_bytes());
+                let _ = _call.writer.flush();
+                return Err(varlink::context!(varlink::ErrorKind::ConnectionClosed));
+            }
         }
         Ok(Vec::new())
     }
@@ -132,6 +138,12 @@ impl varlink::Interface for ScriptIface {
                 b.len()
             };
             bufreader.consume(n);
+            // the peer may ask the upgraded service to end the session from its side: say goodbye, then hang up
+            if self.log.lock().unwrap().up_rx.get(&tok).map(|b| b.ends_with(b"HANGUP\n")).unwrap_or(false) {
+                let _ = _call.writer.write_all(format!("BYE-{}\n", tok).as_bytes());
+                let _ = _call.writer.flush();
+                return Err(varlink::context!(varlink::ErrorKind::ConnectionClosed));
+            }
         }
         Ok(Vec::new())
     }
